@@ -191,7 +191,7 @@ Section Fr.
   Proof.
     induction fuel as [|f IH]; intros s offset target; [apply same_refl|]. cbn [ofs_walk].
     destruct (offset <? target); [|apply same_refl].
-    set (s1 := set_pind _ _). destruct ((pind s1 =? bs) && _).
+    set (s1 := set_pind _ _). destruct (pind s1 =? bs).
     - pose proof (read_next_same s1) as H. destruct (read_next bs ofs bad s1) as (ok, sn). cbn [snd] in H.
       assert (H1 : Same s s1) by (subst s1; repeat split).
       destruct ok; [|eapply same_trans; [exact H1|]; eapply same_trans; [exact H|]; repeat split].
